@@ -215,7 +215,8 @@ def rule_box(ctx: Ctx) -> List[Ob]:
         for s in walk_no_nested(g.node):
             if isinstance(s, ast.Assign) and any(src(t) == "self.x" for t in s.targets):
                 nw += 1
-                base = uncopy(s.value)
+                from ..flow import Expander
+                base = uncopy(Expander(ctx, g).expand_at(s, s.value))      # local temporaries followed
                 while isinstance(base, ast.Call) and dotted(base.func) in COPYLIKE_F and base.args:
                     base = uncopy(base.args[0])
                 okw = isinstance(base, ast.Name) and base.id in g.params
@@ -261,22 +262,54 @@ def rule_fdb(ctx: Ctx) -> List[Ob]:
             from ..flow import Expander
             ve = Expander(ctx, psf).expand_at(c, v) if v is not None else None
             inf = "(-np.inf, np.inf)"
-            ok = ve is not None and src(ve) in ("bounds", f"{inf} if bounds is None else bounds", f"bounds if bounds is not None else {inf}")
-            rdefs = []
-            if isinstance(ve, ast.Name):
-                rd_ = [(dn, x) for dn, x, how in ctx.rd(psf).value_exprs(ctx.cfg(psf).node_of(c), ve.id) if x is not None]
-                rdefs = [short(x) for _, x in rd_]
-                ok = ok and all(r == inf for r in rdefs)
-                # the infinite box may only replace a MISSING box: the redefinition runs under `bounds is None` and nothing else
-                for dn, x in rd_:
-                    stmt = getattr(dn, "ast", None)
-                    g = None
-                    for p_ in ast.walk(psf.node):
-                        if isinstance(p_, ast.If) and stmt is not None and any(stmt is y for b_ in p_.body for y in ast.walk(b_)):
-                            g = p_ if g is None or any(p_ is y for y in ast.walk(g)) else g
-                    if g is None or not bool_equiv(g.test, f"{ve.id} is None"):
-                        ok = False
-                        rdefs.append(f"<- runs under `{short(g.test) if g is not None else 'no guard'}`, not `{ve.id} is None`")
+            # every value that can reach the argument is the factory's own `bounds` parameter, or the infinite box standing in
+            # for a MISSING box (bound under a condition equivalent to `bounds is None`)
+            bp = "bounds"
+            rdp = ctx.rd(psf)
+            cfgp = ctx.cfg(psf)
+
+            def guard_expr(stmt):
+                g_ = None
+                for p_ in ast.walk(psf.node):
+                    if isinstance(p_, ast.If):
+                        if any(stmt is y for b_ in p_.body for y in ast.walk(b_)):
+                            g_ = p_.test if g_ is None else ast.BoolOp(op=ast.And(), values=[g_, p_.test])
+                        elif any(stmt is y for b_ in p_.orelse for y in ast.walk(b_)):
+                            ng = ast.UnaryOp(op=ast.Not(), operand=p_.test)
+                            g_ = ng if g_ is None else ast.BoolOp(op=ast.And(), values=[g_, ng])
+                return g_
+            leaves = []      # (expr or None for the parameter itself, guard)
+
+            def collect(at_node, e, guard, depth=0):
+                if isinstance(e, ast.IfExp):
+                    collect(at_node, e.body, e.test if guard is None else ast.BoolOp(op=ast.And(), values=[guard, e.test]), depth)
+                    nt = ast.UnaryOp(op=ast.Not(), operand=e.test)
+                    collect(at_node, e.orelse, nt if guard is None else ast.BoolOp(op=ast.And(), values=[guard, nt]), depth)
+                    return
+                if isinstance(e, ast.Name) and depth < 4:
+                    for dn, x, how in rdp.value_exprs(at_node, e.id):
+                        if x is None and dn is cfgp.entry or (x is None and e.id == bp and how != "bind"):
+                            leaves.append((None if e.id == bp else e, guard))
+                        elif x is None:
+                            leaves.append((None if (e.id == bp and getattr(dn, "ast", None) is None) else e, guard))
+                        else:
+                            collect(dn, x, guard_expr(dn.ast) if getattr(dn, "ast", None) is not None else guard, depth + 1)
+                    return
+                leaves.append((e, guard))
+            if v is not None:
+                collect(cfgp.node_of(c), v, None)
+            ok, rdefs = bool(leaves), []
+            for e_, g_ in leaves:
+                if e_ is None:
+                    rdefs.append(f"{bp} (parameter)")
+                    continue
+                if src(e_).replace(" ", "") == inf.replace(" ", ""):
+                    good_ = g_ is not None and bool_equiv(g_, f"{bp} is None")
+                    rdefs.append(f"{inf} under `{short(g_) if g_ is not None else 'no guard'}`" + ("" if good_ else f": not exactly when `{bp} is None`"))
+                    ok = ok and good_
+                else:
+                    rdefs.append(f"{short(e_)}: neither the parameter nor the infinite box")
+                    ok = False
             obs.append(ob("FDB", "factory passes its bounds parameter on unchanged", psf, c, ok,
                           f"finite_diff_bounds <- {short(v)}; local redefinitions of bounds: {rdefs or 'none'}",
                           construct=f"ScalarFunction(finite_diff_bounds={short(v)})"))
@@ -300,50 +333,58 @@ def rule_fdb(ctx: Ctx) -> List[Ob]:
             if isinstance(c, ast.Call) and (dotted(c.func) or "").endswith("approx_derivative"):
                 n4 += 1
                 stars = [k.value for k in c.keywords if k.arg is None and isinstance(k.value, ast.Name)]
-                over = kw(c, "bounds")
-                ok4 = len(stars) == 1 and over is None
+                explicit = {k.arg: k.value for k in c.keywords if k.arg is not None}
+                OPTS = ("method", "rel_step", "abs_step", "bounds")
+                # the options reach the differencer either through one splatted dict (and then no explicit override) or as
+                # explicit keywords (and then no splat that could override them)
+                ok4 = (len(stars) == 1 and not (set(explicit) & set(OPTS))) or (not stars and all(k_ in explicit for k_ in OPTS))
                 obs.append(ob("FDB", "differencer receives the options (incl. bounds) unchanged", g, c, ok4,
-                              f"**{stars[0].id if stars else '?'} passed={bool(stars)}, explicit bounds= override={short(over) if over is not None else 'none'}",
+                              (f"**{stars[0].id} passed, no explicit override" if stars and ok4 else
+                               f"options passed as keywords {sorted(set(explicit) & set(OPTS))}" if ok4 else
+                               f"splat={[x.id for x in stars]}, explicit keywords={sorted(set(explicit) & set(OPTS))}: an option is missing or given twice"),
                               construct="approx_derivative(fun, x0, f0=, **options)"))
-                if not stars:
+                if not ok4:
                     continue
-                D = stars[0].id
-                entries = []
-                for s in ast.walk(init.node):
-                    if isinstance(s, ast.Assign) and len(s.targets) == 1:
-                        t = s.targets[0]
-                        if isinstance(t, ast.Name) and t.id == D and isinstance(s.value, ast.Dict):
-                            for kk, vv in zip(s.value.keys, s.value.values):
-                                if isinstance(kk, ast.Constant) and kk.value == "bounds":
-                                    entries.append((vv, guard_of(init.node, s), s))
-                        elif isinstance(t, ast.Subscript) and src(t.value) == D and isinstance(t.slice, ast.Constant) and t.slice.value == "bounds":
-                            entries.append((s.value, guard_of(init.node, s), s))
-                # the other options of the differencing scheme: one binding each, to the matching argument
-                want = {"method": "grad", "rel_step": "finite_diff_rel_step", "abs_step": "epsilon"}
-                for key, param in want.items():
-                    es = []
+                # where does the call run: the guard of the closure definition inside __init__ (explicit form)
+                cl_guard = None
+                if g.parent is not None:
+                    cl_guard = guard_of(init.node, g.node)
+                entries_of: Dict[str, list] = {k_: [] for k_ in OPTS}
+                if stars:
+                    D = stars[0].id
                     for s2 in ast.walk(init.node):
                         if isinstance(s2, ast.Assign) and len(s2.targets) == 1:
                             t2 = s2.targets[0]
                             if isinstance(t2, ast.Name) and t2.id == D and isinstance(s2.value, ast.Dict):
-                                es += [vv for kk, vv in zip(s2.value.keys, s2.value.values) if isinstance(kk, ast.Constant) and kk.value == key]
-                            elif isinstance(t2, ast.Subscript) and src(t2.value) == D and isinstance(t2.slice, ast.Constant) and t2.slice.value == key:
-                                es.append(s2.value)
+                                for kk, vv in zip(s2.value.keys, s2.value.values):
+                                    if isinstance(kk, ast.Constant) and kk.value in entries_of:
+                                        entries_of[kk.value].append((vv, guard_of(init.node, s2), s2))
+                            elif isinstance(t2, ast.Subscript) and src(t2.value) == D and isinstance(t2.slice, ast.Constant) and t2.slice.value in entries_of:
+                                entries_of[t2.slice.value].append((s2.value, guard_of(init.node, s2), s2))
+                    label = D
+                else:
+                    for k_ in OPTS:
+                        entries_of[k_].append((explicit[k_], cl_guard, c))
+                    label = "keyword"
+                want = {"method": "grad", "rel_step": "finite_diff_rel_step", "abs_step": "epsilon"}
+                for key, param in want.items():
+                    es = [e_[0] for e_ in entries_of[key]]
                     oke = len(es) == 1 and src(es[0]) == param
                     obs.append(ob("FDB", f"options['{key}'] is the caller's {param}", init, es[0] if es else init.node, oke,
-                                  f"{D}['{key}'] <- {[short(x) for x in es]}" + ("" if oke else
+                                  f"{label}['{key}'] <- {[short(x) for x in es]}" + ("" if oke else
                                   f": expected exactly one binding to `{param}` (the step of the scheme must not depend on anything else, e.g. the start point)"),
-                                  False, construct=f"{D}['{key}'] = {param}"))
+                                  False, construct=f"options['{key}'] = {param}"))
+                entries = entries_of["bounds"]
                 good = [e for e in entries if src(e[0]) == "finite_diff_bounds" and
-                        (e[1] is None or bool_equiv(e[1], "grad in FD_METHODS"))]
+                        (e[1] is None or bool_equiv(e[1], "grad in FD_METHODS") or bool_equiv(e[1], "not callable(grad) and grad in FD_METHODS"))]
                 bad = [e for e in entries if e not in good]
                 ok3 = bool(good) and not bad
                 obs.append(ob("FDB", "options['bounds'] is the caller's box in every finite-difference mode", init,
                               (entries[0][2] if entries else init.node), ok3,
                               ("; ".join(f"bounds <- {short(v)} under `{short(cnd) if cnd is not None else 'always'}`" for v, cnd, _ in entries)
-                               or f"the dict `{D}` never receives a 'bounds' entry") +
+                               or "the options never receive a 'bounds' entry") +
                               ("" if ok3 else ": in some finite-difference mode the stencil is not confined to [lb, ub]"),
-                              construct=f"{D}['bounds'] = finite_diff_bounds  (grad in FD_METHODS)"))
+                              construct="options['bounds'] = finite_diff_bounds  (grad in FD_METHODS)"))
     need(n4 >= 1, "FDB: approx_derivative call not found")
     return obs
 
